@@ -1473,6 +1473,23 @@ class Frame:
                 ex.hasattrs.append(node.args[1].value)
                 return Const(bool(ex.ns_lookup(node.args[1].value, False, node.lineno)))
             raise Unsupported('hasattr on something else than the namespace')
+        # getattr(args, 'x'[, default]): attribute read, with a default when the shape says the attribute may be absent
+        if isinstance(f, ast.Name) and f.id == 'getattr' and 'getattr' not in self.env:
+            if len(node.args) in (2, 3) and not node.keywords and isinstance(node.args[1], ast.Constant) and \
+                    isinstance(node.args[1].value, str) and isinstance(self.expr(node.args[0]), NSRef):
+                name = node.args[1].value
+                if len(node.args) == 2:
+                    ex.reads.append(name)
+                    return ex.ns_lookup(name, True, node.lineno)
+                ex.hasattrs.append(name)
+                if ex.ns_lookup(name, False, node.lineno):
+                    ex.reads.append(name)
+                    v = ex.ns_lookup(name, True, node.lineno)
+                    if isinstance(v, Sym) and v.ty == 'str':
+                        ex.str_domain(v)
+                    return v
+                return self.term(node.args[2])
+            raise Unsupported('getattr on something else than the namespace / computed attribute name')
         # method call / module function
         if isinstance(f, ast.Attribute):
             base = self.expr(f.value)
